@@ -175,7 +175,9 @@ def run(c, tier):
         later = [("MC_ChainCore", "MC_ChainCore_live3.cfg", pool.submit(tlc_live, "MC_ChainCore", "MC_ChainCore_live3.cfg", 4), CORE),
                  ("MC_ChainCoreX", "MC_ChainCoreX_8.cfg", pool.submit(tlc_live, "MC_ChainCoreX", "MC_ChainCoreX_8.cfg", 3), XCORE),
                  ("MC_ChainCoreX", "MC_ChainCoreX_live.cfg", pool.submit(tlc_live, "MC_ChainCoreX", "MC_ChainCoreX_live.cfg", 3), XCORE)]
-        f_r = [pool.submit(tlc_live, "MC_ChainCoreX", cfg, 3) for cfg in ("MC_ChainCoreX_r1.cfg", "MC_ChainCoreX_r2.cfg")]
+    # orphan expiry: the export models run in both tiers (quick: r1 only, a small replayed sample)
+    r_cfgs = ("MC_ChainCoreX_r1.cfg",) if quick else ("MC_ChainCoreX_r1.cfg", "MC_ChainCoreX_r2.cfg")
+    f_r = [pool.submit(tlc_live, "MC_ChainCoreX", cfg, 3) for cfg in r_cfgs]
     res = f_live2.result()
     res["module"] = "MC_ChainCore"
     expect_pass(c, res, "MC_ChainCore_live2.cfg", CORE, info)
@@ -191,8 +193,9 @@ def run(c, tier):
             res = fu.result()
             res["module"] = module
             expect_pass(c, res, cfg, actions, info)
+    if True:
         groups = {}
-        for cfg, fu in zip(("MC_ChainCoreX_r1.cfg", "MC_ChainCoreX_r2.cfg"), f_r):
+        for cfg, fu in zip(r_cfgs, f_r):
             res = fu.result()
             res["module"] = "MC_ChainCoreX"
             if expect_pass(c, res, cfg, XCORE, info):
@@ -206,7 +209,7 @@ def run(c, tier):
             cold = [k for k in full if not any(a["gone"] for a in groups[k])]
             rnd.shuffle(hot)
             rnd.shuffle(cold)
-            chosen = hot[:90] + cold[:50]
+            chosen = hot[:16] + cold[:8] if quick else hot[:90] + cold[:50]
             stats = collections.Counter()
             run_expiry_replay(c, groups, chosen, 4, stats)
             g["expiry_replay"] = dict(stats, exported_scenarios=len(groups), complete_deliveries=len(full),
